@@ -19,7 +19,10 @@ PROPS["C04"] = dict(
                "the message is put into the state in which the fields exist, fields are set to boundary-heavy in-range values in random order (last value wins), after every set every getter of the "
                "kind must equal the shadow (snapshot: untouched fields keep their values), and the serialization (standalone or inside IPv6 / IP / Dot11::from_bytes / a DNS message) must (a) equal, region "
                "by region, an image computed in the monitor from the shadow with RFC / IEEE offset arithmetic, (b) carry a correct checksum where defined (own RFC 1071 sum), (c) re-parse to an object "
-               "whose getters equal the shadow, (d) re-serialize byte-identically.",
+               "whose getters equal the shadow, (d) re-serialize byte-identically. "
+               "Phase 'stacks' (harness/c03.cpp, mode built) applies the statement's second sentence to whole packets: an API-built stack from the structured generator (any layer of it as the root) is "
+               "serialized and parsed back through the root class's entry point; layer classes, every getter of every layer and the payload must be equal (derived lengths/checksums and next-protocol tags "
+               "as in C03); where the parser cannot know what the API meant (UDP payloads, label stacks, 802.11 bodies) the undissected tail is compared as bytes.",
     level_note="Trusted: argument generators keep values inside what the argument type can hold; pairs whose argument space is wider than the wire field are listed as in-range preconditions in harness/c04.cpp. "
                "A typed option is set at most once per program (a second add would sit behind the first match); repeated codes are the business of phase 'lists'. "
                "Phase 'lists' only adds what the protocol can represent (restrictions listed at the top of harness/c04_lists.cpp and counted as lists-skip:*): no TCP EOL / IPv4 END elements, NOP/NOOP/PAD/END/"
@@ -27,14 +30,17 @@ PROPS["C04"] = dict(
                "(data of 8k-2 octets, else compared with the zero padding IPv6 itself appends), <=15 CSRC ids, RFC 4884 objects only behind a >=128-octet datagram. "
                "Phase 'messages' only sets the fields of the message's own type (the other accessors overlay the same header word), typed options once per program, payloads below 128 octets for the "
                "RFC 4884 types, no payload behind ND messages / MLDv1 queries, no SSAP 0x42, Dot11Data payload only with the protected bit (restrictions listed at the top of harness/c04_messages.cpp, "
-               "counted as msgs:restrict:*). Its wire images are written from RFC 792/950/1191/4443/4861/4191/2710/3810/8415/951/2516/1035/4884/3550/9293, IEEE 802.2 and 802.11 field layouts.",
+               "counted as msgs:restrict:*). Phase 'stacks' skips packets whose parse is a guess (opaque payload directly under MPLS or an 802.11 data frame; tags on a session-stage PPPoE packet), treats encoder "
+               "switches (append_padding, use_length_field, use_mldv2), header_size, DHCP's vend area, an RTP profile without the X bit and a trailing IPv4 End-of-list entry as not on the wire, and the "
+               "generator only puts RFC 4884 extensions where they exist (ICMP 3/11/12, ICMPv6 1/3; length field when the quoted datagram exceeds 128 octets). Its wire images are written from RFC 792/950/1191/4443/4861/4191/2710/3810/8415/951/2516/1035/4884/3550/9293, IEEE 802.2 and 802.11 field layouts.",
     phases=[dict(name="programs", harness="c04.cpp", flavor="asan", mode="main", cases=dict(quick=400000, thorough=6000000)),
             dict(name="lists", harness="c04_lists.cpp", flavor="asan", mode="lists", cases=dict(quick=40000, thorough=2000000)),
-            dict(name="messages", harness="c04_messages.cpp", flavor="asan", mode="messages", cases=dict(quick=30000, thorough=1500000))],
+            dict(name="messages", harness="c04_messages.cpp", flavor="asan", mode="messages", cases=dict(quick=30000, thorough=1500000)),
+            dict(name="stacks", harness="c03.cpp", flavor="asan", mode="built", cases=dict(quick=60000, thorough=3000000))],
     rule="case = (class, random program of setter calls); distinct = distinct program text; non-trivial: every program step is followed by getter, wire and re-serialization checks; "
          "lists phase: case = (class, configuration, 1-3 codes, program of 1..14 add/remove/search steps with random data of 0..N octets), distinct = distinct program text; "
          "messages phase: case = (message kind, context, program of 1..10 field sets), distinct = distinct program text",
-    floors=dict(any={"distinct": 200000, "wire_checks": 1000000, "getter_checks": 1000000, "steps:option-setter": 200000, "steps:scalar-setter": 300000, "field:*": 20,
+    floors=dict(any={"distinct": 200000, "wire_checks": 1000000, "getter_checks": 1000000, "steps:option-setter": 200000, "built:roundtrips": 30000, "views_equal": 30000, "steps:scalar-setter": 300000, "field:*": 20,
                      # phase "lists" (quick tier observes roughly 2-3x these)
                      "lists:programs": 30000, "lists:distinct-histories": 25000, "lists:programs-with-duplicate-codes": 12000, "lists:getter_checks": 150000, "lists:size_checks": 150000,
                      "lists:wire_checks": 150000, "lists:dup-code-present": 12000, "lists:search-identity-checks": 10000, "lists:add-remove-neutral-checks": 15000, "lists:continued-on-parsed-object": 10000,
